@@ -19,6 +19,7 @@ PAD = 'crysp/padding.py'
 
 
 def run(ctx):
+    integrity(ctx, ['crysp/bits.py', 'crysp/padding.py'])
     ctx.rule('C09-R3 block iterator protocol')
     cmp_fn(ctx, 'blockiterator.iterblocks', PAD, 'blockiterator.iterblocks', H.ITERBLOCKS)
     cmp_fn(ctx, 'blockiterator.__init__', PAD, 'blockiterator.__init__', H.BLOCKITERATOR_INIT)
